@@ -146,7 +146,15 @@ impl<'a> ast::Ref<'a> {
     pub fn target(self) -> (r: &'a str) requires self.wf(), tree_wf(self.0) ensures r@ == self.target_s(), !is_lc(r@) { unimplemented!() }
     #[verifier::external_body]
     pub fn supplement(self) -> (r: Option<ast::ContentBlock<'a>>) requires self.wf(), tree_wf(self.0)
-        ensures r matches Some(c) ==> c.wf() && is_child_of(c.node(), self.0) { unimplemented!() }
+        ensures r == self.supplement_s(), r matches Some(c) ==> c.wf() && is_child_of(c.node(), self.0) { unimplemented!() }
+    /// the content block of `@target[supplement]`, if any
+    pub uninterp spec fn supplement_s(self) -> Option<ast::ContentBlock<'a>>;
+}
+impl<'a> ast::Markup<'a> {
+    /// the children that are expressions, in order (`#`, `;` and comments are not among them)
+    #[verifier::external_body]
+    pub fn exprs(self) -> (r: VpIter<ast::Expr<'a>>) requires self.wf(), tree_wf(self.0)
+        ensures forall|k: int| 0 <= k < r.rest().len() ==> (#[trigger] r.rest()[k]).wf() && is_child_of(r.rest()[k].node(), self.0) { unimplemented!() }
 }
 impl<'a> ast::Equation<'a> {
     pub uninterp spec fn block_s(self) -> bool;
